@@ -99,7 +99,7 @@ class ThreadScheduler(object):
 
     def _local_trace(self, frame, event, arg):
         if event == "line" or (event == "opcode" and self.trace_opcodes):
-            self.yield_point("trace:%s:%d" % (frame.f_code.co_name, frame.f_lineno))
+            self.yield_point("trace:%s:%s" % (frame.f_code.co_name, frame.f_lasti))
         return self._local_trace
 
     def _run_worker(self, w):
